@@ -12,7 +12,7 @@ from vf.core import Result, through_code_under_test
 
 ID = "C13"
 LEVEL = "exploration"
-BUDGET = {"quick": 512, "thorough": 8192}
+BUDGET = {"quick": 1024, "thorough": 12288}
 MIN_NONTRIVIAL = {"quick": 30, "thorough": 400}
 RULE = (
     "Hypothesis draws a run configuration: 1-4 chains, 0-12 warm-up and 0-8 main iterations, trace_warm_up on/off, "
